@@ -376,7 +376,7 @@ func (c *Ctx) VerifyBuiltin(ctorKey string) (*FuncReport, error) {
 			env.resTypes = append(env.resTypes, sig.Results().At(i).Type())
 		}
 		for _, e := range ens {
-			t, err := c.evalBool(env, e.Expr)
+			t, err := c.evalGoal(env, e.Expr)
 			if err != nil {
 				return nil, fmt.Errorf("CONTRACT-ERROR %s: %v", e.Line, err)
 			}
